@@ -472,6 +472,39 @@ JRename(e, st) ==
       ELSE Fail("Rename:signature", s2)
 
 ----------------------------------------------------------------------------
+(* combining per-agent files (C17): the union, whatever the discovery order  *)
+
+JCombineDomains(e, st) ==
+  LET parts == [i \in DOMAIN e.parts |-> st[e.parts[i]].D]
+      DU == UnionDomain(parts, e.dummy)
+      s2 == Put(st, e.h, [kind |-> "domain", D |-> DU, digest |-> (IF Has(e.out, "digest") THEN e.out.digest ELSE "none")])
+      names == {parts[i].name : i \in DOMAIN parts}
+  IN  IF Has(e.out, "exc") THEN Fail("CombineDomains:exception", st)
+      ELSE IF VocabSame([VocabOfJson(e.out.vocab) EXCEPT !.name = "x"], [VocabOf(DU) EXCEPT !.name = "x"])
+              /\ e.out.vocab.name \in names /\ e.out.vocab.keys_ok
+           THEN Ok(s2) ELSE Fail("CombineDomains:not-the-union", s2)
+
+\* problems: union of objects, initial facts, fluent values and goals, no duplicates
+JCombineProblems(e, st) ==
+  LET ps == [i \in DOMAIN e.parts |-> st[e.parts[i]].P]
+      j == e.out.prob
+      want == [objs |-> UNION {Range(ps[i].objs) : i \in DOMAIN ps},
+               facts |-> UNION {ps[i].init.facts : i \in DOMAIN ps},
+               flKeys |-> UNION {DOMAIN ps[i].init.fl : i \in DOMAIN ps},
+               glits |-> UNION {ps[i].goal.lits : i \in DOMAIN ps},
+               gcmps |-> UNION {ps[i].goal.cmps : i \in DOMAIN ps}]
+      got == StOfJson(j.init)
+  IN  IF Has(e.out, "exc") THEN Fail("CombineProblems:exception", st)
+      ELSE IF /\ Range(j.objs) = want.objs
+              /\ got.facts = want.facts
+              /\ DOMAIN got.fl = want.flKeys
+              /\ \A g \in want.flKeys : \E i \in DOMAIN ps : g \in DOMAIN ps[i].init.fl /\ ps[i].init.fl[g] = got.fl[g]
+              /\ {<<x[1], x[2]>> : x \in Range(j.goal_lits)} = want.glits
+              /\ {FormulaOfTree(x) : x \in Range(j.goal_cmps)} = want.gcmps
+           THEN (IF j.dups = 0 THEN Ok(st) ELSE Fail("CombineProblems:duplicates", st))
+           ELSE Fail("CombineProblems:not-the-union", st)
+
+----------------------------------------------------------------------------
 (* Grounding (C20) *)
 
 LitOfJson(j) == [pos |-> j[1], p |-> j[2], a |-> j[3], ty |-> j[4]]
@@ -561,6 +594,8 @@ Judge(e, st) ==
     [] e.c = "ExportJointTrajectory" -> JExportJointTrajectory(e, st)
     [] e.c = "ParseJointTrajectory"  -> JParseJointTrajectory(e, st)
     [] e.c = "ConvertPlan"  -> JConvertPlan(e, st)
+    [] e.c = "CombineDomains" -> JCombineDomains(e, st)
+    [] e.c = "CombineProblems" -> JCombineProblems(e, st)
     [] e.c = "ExportDomain" -> JExportDomain(e, st)
     [] e.c = "ExportProblem" -> JExportProblem(e, st)
     [] e.c = "CopyState"    -> JCopyState(e, st)
